@@ -71,18 +71,24 @@ META = {
     'design_ref': '§5 C19, §4 M1, §6.3, §6.4',
     'level_text': 'Machine-checked: in every reachable state of the run model (serial, thread, process; any schedule) '
                   'final_result equals a function of the multiset of failure kinds reported (0 none, 1 only TaskFailed, '
-                  '2 some error incl. unmet dependency), exit 3 exactly when an exception leaves run_all; the callback '
-                  'stream satisfies the report discipline (one final report per task, matching its run_status, after '
-                  'get_status, preceded by execute_task iff started); for every disciplined stream the JSON reporter '
-                  'model lists each processed task once with its result and never raises; a FIFO queue with several '
-                  'producers delivers each forwarded execute_task before the result of the same task.  Tied to doit on '
-                  'every run: real runs with all five built-in reporters x three runners, real output parsed and compared.',
+                  '2 some error incl. unmet dependency), exit 3 exactly when an exception leaves run_all; every task has '
+                  'no final report while unfinished and exactly the one matching its run_status when finished; the '
+                  'callback stream satisfies the report discipline (get_status first, execute_task at most once, before '
+                  'the final report, present iff the actions were started) - for the process runner this is proved for '
+                  'MRunner + MReporter as one transition system with the real FIFO result queue (forwarded execute_task '
+                  'reports are never lost, duplicated or overtaken by the result of their task); for every disciplined '
+                  'stream the JsonReporter bookkeeping never raises and lists each processed task exactly once with '
+                  'its result.  Tied to doit on every run: real runs with all five built-in reporters x three runners, '
+                  'real output parsed and compared with the Lean reporter models, the statement evaluated on every trace.',
     'level_note': 'Trusted: Lean kernel; doitdrv; the Python harness (runlib generator / scheduler / token controller, '
                   'the tee subclass of the built-in reporters, the output parsers).  json.dump validity and message '
                   'bodies / tracebacks are not modelled (the document is parsed, bodies are skipped).  Monitor: Lean '
-                  '(driver) with a Python cross-check of exit code and report counts.  The base run model carries the '
-                  'process runner\'s execute_task reports only through the abstract queue theorem (fwd_execute_before_result); '
-                  'the monitor checks them on every real process-mode trace.',
+                  '(driver) with a Python cross-check of exit code and report counts; the comparison of the real reporter '
+                  'output with the Lean rendering of the observed callbacks (C19_output, C19_json) is done in Python on '
+                  'the driver\'s answer.  "The report is the true one" (C19_truth: oracle of the case + failures/ignores of '
+                  'dependencies) is monitored on every trace but proved only through run_status (one_final_report), not '
+                  'against the oracle.  The forwarding system FSys is proved, not replayed against process traces.  Open '
+                  'finding json-thread-stdout-overlap.',
     'rule': 'runlib random DAGs of 3-8 tasks (all edge kinds, groups), oracle per task (run/up-to-date/error, ignored, '
             'ok/failed/error, how the action fails), --continue on/off, reporter drawn from the five built-ins, runner '
             'serial | thread k=1..4 x schedule policy | process k=2,3; exhaustive tier: every outcome assignment of '
